@@ -90,6 +90,14 @@ func NewSparseFile(name string, idx Index, s Store, opt SparseFileOptions) (*Spa
 		return nil, err
 	}
 
+	// A state left in the save file was not accepted and does not describe the file
+	// as it is now. Replace it right away: should this process die before it saves
+	// its own state, the next start would find a file of the right size next to the
+	// stale state and serve the holes of the file for chunks marked done in it.
+	if err = sf.WriteState(); err != nil {
+		return nil, err
+	}
+
 	// Try to initialize the sparse file from a prior state file if one is provided.
 	// This will concurrently load all chunks marked "done" in the state file and
 	// write them to the sparse file.
